@@ -28,6 +28,10 @@ type HostSpec struct {
 	IdentityOverwrite bool `json:",omitempty"`
 	IdentityDetail   bool `json:",omitempty"`
 	IdentitySpan     bool `json:",omitempty"`
+	// StreamCustom: an acting stream syntax RR<digits> whose parser reuses one result object and one
+	// groups buffer across calls (a legitimate way to write a parser: nothing says the library keeps
+	// the slice).
+	StreamCustom bool `json:",omitempty"`
 	// Acting global scope.
 	Globals    bool `json:",omitempty"` // GlobalValueLoadFunc serves g1,g2,全局
 	StLog      bool `json:",omitempty"`
@@ -129,6 +133,34 @@ func (h *Host) Install(vm *ds.Context) {
 			v := ds.NewIntVal(ds.IntType(n))
 			h.Returned = append(h.Returned, v)
 			return v, "", nil
+		})
+	}
+	if s.StreamCustom {
+		buf := make([]string, 2)
+		result := &ds.CustomDiceParseResult{}
+		_ = vm.RegCustomDiceParser(func(ctx *ds.Context, st *ds.CustomDiceStream) (*ds.CustomDiceParseResult, error) {
+			a, ok1 := st.Read()
+			b, ok2 := st.Read()
+			buf[0], buf[1] = "", ""
+			if !(ok1 && ok2 && a == 'R' && b == 'R') {
+				result.Matched = false
+				return result, nil
+			}
+			digits, ok := st.ReadDigits()
+			if !ok {
+				result.Matched = false
+				return result, nil
+			}
+			buf[0], buf[1] = "RR"+digits, digits
+			result.Matched, result.Groups = true, buf
+			return result, nil
+		}, func(ctx *ds.Context, groups []string, payload any) (*ds.VMValue, string, error) {
+			h.Calls = append(h.Calls, Invocation{What: "stream-custom", Groups: append([]string(nil), groups...)})
+			n := 0
+			if len(groups) > 1 {
+				n, _ = strconv.Atoi(groups[1])
+			}
+			return ds.NewIntVal(ds.IntType(n)), "", nil
 		})
 	}
 	if s.IdentityLoadPre {
